@@ -199,6 +199,17 @@ struct Model<AnyOf<W>>
   static void fp(const AnyManifold & m, std::vector<double> & o) { Model<W>::fp(m.get<W>(), o); }
 };
 
+template<class MM>
+struct AnyInner
+{
+  using type = void;
+};
+template<class W>
+struct AnyInner<AnyOf<W>>
+{
+  using type = W;
+};
+
 template<class M>
 std::vector<double> fingerprint(const M & m)
 {
@@ -277,6 +288,26 @@ void laws(vf::Tape & t, vf::Ctx & ctx, const FP & fpr, bool is_flt, bool can_cas
   c2 = ma;
   ctx.require("assigning to a copy leaves the original unchanged", same_bits(fpr(m), before) && same_bits(fpr(c2), fpr(ma)));
 
+  if constexpr (std::is_same_v<Val, AnyManifold>) {
+    // type-erased storage: a copy made by copy construction / copy assignment / assignment between vector elements owns
+    // its value - writing through get<W>() of one object must not show in the other
+    using W = typename AnyInner<MM>::type;
+    const auto fma = fpr(ma);
+    Val c3(m);
+    c3 = ma;                       // copy assignment
+    c3.template get<W>() = m.template get<W>();   // in-place write through the assigned copy
+    ctx.require("AnyManifold: in-place write through a copy-assigned object leaves the source unchanged", same_bits(fpr(ma), fma) && same_bits(fpr(c3), before));
+    Val c4(ma);                    // copy construction
+    c4.template get<W>() = m.template get<W>();
+    ctx.require("AnyManifold: in-place write through a copy-constructed object leaves the source unchanged", same_bits(fpr(ma), fma) && same_bits(fpr(c4), before));
+    std::vector<AnyManifold> va{ma, ma}, vb{m, m};
+    vb = va;                       // element-wise copy assignment
+    vb[0].template get<W>() = m.template get<W>();
+    ctx.require("AnyManifold: vector assignment copies deeply", same_bits(fpr(va[0]), fma) && same_bits(fpr(vb[1]), fma) && same_bits(fpr(vb[0]), before));
+    Val c5(ma);
+    Val c6 = std::move(c5);        // move keeps the value
+    ctx.require("AnyManifold: moved-to object holds the value", same_bits(fpr(c6), fma));
+  }
   if constexpr (!std::is_same_v<Val, AnyManifold>) {
     if (can_cast) {
       // cast to the same scalar type: independent object, identical behaviour
